@@ -236,7 +236,10 @@ def treeLine (st : TState) (e : SExp) : TState × String :=
           ({ st3 with dead := true }, s!"reject C11/C12 {kind} node {id}: Events() closed is {ec}, node done is {md}")
         else (st3, "ok")
     | _, _, _, _, _ => (st, "bad obs")
-  | .list [.atom "monobs", .atom id, d, init, log] =>
+  | .list [.atom "monobs", .atom id, d, init, log, .atom early, .atom inits] =>
+    if early != "0" then ({ st with dead := true }, s!"reject C16 monitor {id}: {early} event callbacks ran before OnInitialize")
+    else if inits != "0" && inits != "1" then ({ st with dead := true }, s!"reject C16 monitor {id}: OnInitialize was called {inits} times")
+    else
     match id.toNat?, decBool d, decEvs log with
     | some id, some d, some ilog =>
       let s := st.sys
